@@ -8,13 +8,6 @@ import (
 	vf "github.com/mycoria/mycoria/zzvf"
 )
 
-// vfPolicyKey summarises makePolicyKey ("<proto>-<port>" in decimal) as the
-// injective 3-byte string proto|port_hi|port_lo; the real function's
-// injectivity on all 256 x 65536 pairs is checked natively by the driver test.
-func vfPolicyKey(protocol uint8, dstPort uint16) string {
-	return string([]byte{protocol, byte(dstPort >> 8), byte(dstPort)})
-}
-
 func vfAddr6() netip.Addr {
 	var a [16]byte
 	copy(a[:], vf.Bytes(16))
